@@ -614,7 +614,7 @@ func validatedValue(w *World, f *ssa.Function, v ssa.Value, depth int) bool {
 			if d > 5 || found {
 				return
 			}
-			if c == x {
+			if c == x || equivValue(c, x) {
 				found = true
 				return
 			}
